@@ -303,9 +303,11 @@ R3_EXCEPTIONS = {
 }
 
 
-def r3_underflow(ctx, prog):
-    r = ctx.rule('C17.R3', 'unsigned subtractions that feed sizes, indices or lengths cannot wrap', floor=15, engine='E8')
+def r3_underflow(ctx, prog, rule_id='C17.R3', text='unsigned subtractions that feed sizes, indices or lengths cannot wrap', floor=15, only=None):
+    r = ctx.rule(rule_id, text, floor=floor, engine='E8')
     for f in sorted(prog.functions.values(), key=lambda f: (f['file'], f['line'])):
+        if only is not None and f['qname'] not in only:
+            continue
         subs = []
         for c in walk(f['body']):
             if c.get('k') in ('Call',) and short(c.get('callee')) in SIZE_SINKS:
